@@ -254,7 +254,16 @@ def zsort(sort):
     raise Unsupported(str(sort))
 
 
-class SymNode:
+class NodeMeta(type):
+    """`BV("If", args, length=...)` / `type(x)(op, args, ...)` inside verified code is the raw node
+    constructor Base.__new__: answered by its contract (node_constructor_contract)."""
+    def __call__(cls, *a, **kw):
+        if a and isinstance(a[0], (str, LazyOp)):
+            return node_constructor_contract(cls, str(a[0]), tuple(a[1]), **kw)
+        return super().__call__(*a, **kw)
+
+
+class SymNode(metaclass=NodeMeta):
     """Base of the symbolic AST classes (stands for claripy.ast.Base)."""
 
     def __init__(self, sort, den=None, label="n"):
@@ -267,9 +276,10 @@ class SymNode:
         self._op = None
         self._args = None
         self._excl = set()
-        self._annos = ()
+        self._annos = None if wd.annotations else ()     # None: not decided yet (annotation mode)
         self.label = label
         self._opaque = False
+        self.level = 0            # distance from a root argument (children: parent + 1)
         wd.nodes[self.uid] = self
         cur().prefer.append(self.zsym)
 
@@ -282,7 +292,12 @@ class SymNode:
 
     # ---- shape decisions
     def _alphabet(self):
-        return [o for o in alphabet(self.sort, world()) if o not in self._excl]
+        wd = world()
+        a = [o for o in alphabet(self.sort, wd) if o not in self._excl]
+        b = wd.c.opts.get("if_depth_bound")
+        if b is not None and self.level >= b:
+            a = [o for o in a if o != "If"]        # stated bound on the nesting depth of If trees
+        return a
 
     def _op_is(self, name):
         r = self.root()
@@ -364,7 +379,9 @@ class SymNode:
         self._args = tuple(args)
 
     def _kid(self, sort, label="k"):
-        return new_node(sort, label=label)
+        k = new_node(sort, label=label)
+        k.level = self.level + 1
+        return k
 
     def _materialize(self):
         c = _DenGuard(cur(), self)
@@ -538,7 +555,7 @@ class SymNode:
         if _reaches(a, b) or _reaches(b, a):
             return False      # an expression is never its own sub-expression
         c = cur()
-        if a._annos != b._annos:
+        if a._annotations() != b._annotations():
             return False
         da, db = a._op is not None, b._op is not None
         if da and db:
@@ -586,17 +603,25 @@ class SymNode:
     def variables(self):
         return frozenset({VTok(self)})
 
+    def _annotations(self):
+        r = self.root()
+        if r._annos is None:
+            uni = world().annotations
+            k = cur().choose([True] * (1 << len(uni)), f"annotations{r.uid}")
+            r._annos = tuple(a for i, a in enumerate(uni) if k >> i & 1)
+        return r._annos
+
     @property
     def annotations(self):
-        return self.root()._annos
+        return self._annotations()
 
     @property
     def _relocatable_annotations(self):
-        return frozenset(a for a in self.root()._annos if not a.eliminatable and a.relocatable)
+        return frozenset(a for a in self._annotations() if not a.eliminatable and a.relocatable)
 
     @property
     def _uneliminatable_annotations(self):
-        return frozenset(a for a in self.root()._annos if not (a.eliminatable or a.relocatable))
+        return frozenset(a for a in self._annotations() if not (a.eliminatable or a.relocatable))
 
     @property
     def depth(self):
@@ -622,12 +647,35 @@ class SymNode:
                   skip_child_annotations=False, length=None):
         return make_like_contract(self, op, args, simplify, annotations, variables, symbolic, skip_child_annotations, length)
 
-    def append_annotations(self, annos):
-        if not annos:
+    def _with_annotations(self, annos):
+        """contract of Base._apply_to_annotations / make_like(annotations=..., skip_child_annotations=True): the
+        same node (same op, args, meaning, metadata) carrying exactly `annos`"""
+        annos = tuple(annos)
+        r0 = self.root()
+        if tuple(r0._annotations()) == annos:
             return self
-        raise Unsupported("append_annotations with annotations")
+        r = new_node(r0.sort, label="ann", den=r0.den)
+        r._op, r._args, r._excl = r0._op, r0._args, set(r0._excl)
+        r._annos = annos
+        cur().assume(r.zsym == r0.zsym)
+        r.ghost_from = ("annotate", (r0,))
+        return r
 
-    append_annotation = append_annotations
+    def append_annotations(self, annos):
+        return self._with_annotations(tuple(self._annotations()) + tuple(annos))
+
+    def append_annotation(self, a):
+        return self._with_annotations(tuple(self._annotations()) + (a,))
+
+    def annotate(self, *annos, remove_annotations=None):
+        keep = tuple(a for a in self._annotations() if not remove_annotations or a not in remove_annotations)
+        return self._with_annotations(keep + tuple(annos))
+
+    def remove_annotations(self, remove):
+        return self._with_annotations(tuple(a for a in self._annotations() if a not in remove))
+
+    def clear_annotations(self):
+        return self._with_annotations(())
 
 
 class SymBoolN(SymNode):
@@ -1089,6 +1137,38 @@ def if_contract(cond, a, b):
     r = new_node(a.sort, label="r")
     c.assume(r.den == z3.If(cond.den, a.den, b.den))
     c.assume(z3.Implies(r.zsym, z3.Or(cond.zsym, a.zsym, b.zsym)))
+    return r
+
+
+def node_constructor_contract(cls, op, args, length=None, annotations=(), variables=None, symbolic=None,
+                              skip_child_annotations=False, **kw):
+    """contract of Base.__new__ called directly: the node (op, args) [folded to an undecided shape when it
+    is not symbolic] with the reference meaning; it carries `annotations` plus - unless
+    skip_child_annotations - the relocatable annotations of its children; ghost `child_unelim` records
+    the uneliminatable annotations reachable below it."""
+    like = None
+    kids = [x for x in args if isinstance(x, SymNode)]
+    if issubclass(cls, SymBoolN):
+        like = next((k for k in kids if isinstance(k, SymBoolN)), None)
+        if like is None:
+            like = new_node(("bool",), label="like")
+    else:
+        like = next((k for k in kids if isinstance(k, cls)), None)
+        if like is None:
+            if length is None:
+                raise Unsupported("node constructor without a typed child or length")
+            like = new_node(("bv", length), label="like")
+    r = make_like_contract(like, op, args, False, None, variables, symbolic, skip_child_annotations, length)
+    annos = tuple(annotations)
+    if not skip_child_annotations:
+        rel = []
+        for k in kids:
+            for a in k._relocatable_annotations:
+                if a not in rel and a not in annos:
+                    rel.append(a)
+        annos = annos + tuple(rel)
+    r.root()._annos = annos
+    r.root().child_unelim = set().union(*[set(k._uneliminatable_annotations) | getattr(k.root(), "child_unelim", set()) for k in kids]) if kids else set()
     return r
 
 
